@@ -4,7 +4,7 @@ import json, os, re
 V = "/verif"
 res = json.load(open(f"{V}/seeded/results.json"))
 rows = ["| id | change (first sentence of the author's description) | caught by | detected |", "|---|---|---|---|"]
-ids = sorted(d for d in os.listdir(f"{V}/seeded") if re.fullmatch(r"C\d\d_\d", d))
+ids = sorted(d for d in os.listdir(f"{V}/seeded") if re.fullmatch(r"C\d\d_[0-9a-z]", d))
 n_det = 0
 for i in ids:
     meta = json.load(open(f"{V}/seeded/{i}/meta.json"))
